@@ -980,12 +980,21 @@ func isUnknownSpec(a predOutcome) predOutcome {
 
 //@ func (*Executor).executeDecimalMethod
 //@ props C16 C08
+//@ ensures [C16] rounded-or-refused: node.Operator() == ast.BinaryDecimal && node.Left() != nil && r1 == nil ==> ncalls(roundDecimal) == 1 && callret[bool](roundDecimal, 1) && sameFloat(r0, callret[float64](roundDecimal, 0)) && sameFloat(callarg[float64](roundDecimal, "num"), num)
+//@ ensures [C16 C08] refused-suppressibly: ncalls(roundDecimal) == 1 && !callret[bool](roundDecimal, 1) ==> r1 != nil && errIs(r1, ErrVerbose)
 //@ ensures [C16 C08] invalid-argument-is-a-hard-error: ncalls(getNodeInt32) >= 1 && callret[error](getNodeInt32, 1) != nil ==> r1 != nil && errIs(r1, ErrExecution) && !errIs(r1, ErrVerbose)
 //@ ensures [C05] class: r1 != nil ==> errIs(r1, ErrExecution) || errIs(r1, ErrInvalid)
 //@ ensures [C16] passthrough: node.Operator() != ast.BinaryDecimal || node.Left() == nil ==> r1 == nil && sameFloat(r0, num)
 //@ ensures [C16 C08] precision-range: node.Operator() == ast.BinaryDecimal && node.Left() != nil && ncalls(getNodeInt32) >= 1 && firstret[error](getNodeInt32, 1) == nil && (firstret[int](getNodeInt32, 0) < 1 || firstret[int](getNodeInt32, 0) > 1000) ==> r1 != nil && errIs(r1, ErrExecution) && !errIs(r1, ErrVerbose)
 //@ ensures [C16 C08] scale-range: ncalls(getNodeInt32) == 2 && callret[error](getNodeInt32, 1) == nil && (callret[int](getNodeInt32, 0) < -1000 || callret[int](getNodeInt32, 0) > 1000) ==> r1 != nil && errIs(r1, ErrExecution) && !errIs(r1, ErrVerbose)
 //@ ensures [C05 C16] local-finite: r1 == nil && !isNaN(num) && !isInf(num) ==> !isNaN(r0) && !isInf(r0)
+
+// roundDecimal works in math/big, which the verifier does not model: that the
+// value is rounded half away from zero at the scale and refused when it has
+// more than precision digits is decided by the bounded check method-range-grid
+//@ func roundDecimal
+//@ props C16 C05
+//@ ensures [C16 C05] finite-when-accepted: r1 ==> !isNaN(r0) && !isInf(r0)
 
 //@ func getNodeInt32
 //@ props C16 C17
